@@ -121,5 +121,27 @@ func corpus() []*History {
 		Calls: []CallD{
 			{[]int{0}, []string{"w"}, []ArchD{{"amd", []int{0}}, {"arm", []int{1}}}}, {[]int{1}, []string{"w"}, []ArchD{{"amd", []int{0}}, {"arm", []int{1}}}},
 			{[]int{0}, []string{"x"}, []ArchD{{"amd", []int{0}}, {"arm", []int{1}}}}, {[]int{0}, []string{"w"}, one(0)}, {[]int{0}, []string{"a"}, []ArchD{{"amd", []int{0}}, {"arm", []int{1}}}}}})
+
+	// ---- the ORDER of the index list is an input, and part of the resolver-cache key ----
+	// (the same name-version in two repositories: the candidates tie in comparePackages and
+	// the repository listed first wins; [A,B] and [B,A] must not share a cached resolver)
+	ordu := []IndexD{
+		{Name: "", Pkgs: []PkgD{p("base", "1.0"), p("lib", "1.0"), p("onlyA", "1", "base")}},
+		{Name: "", Pkgs: []PkgD{p("lib", "1.0"), p("base", "1.0"), p("app", "2.0", "base", "lib")}},
+		{Name: "", Pkgs: []PkgD{p("base", "1.0"), {Name: "alt", Version: "1.0", Provides: []string{"lib=1.0"}}, p("tool", "1", "lib")}}}
+	add(&History{Note: "index order: base-1.0 and lib-1.0 exist in both repositories; [0,1] takes them from 0, [1,0] from 1 - in either order of the two calls, and again after both prototypes are cached",
+		Class: "corpus/envelope/index-order", Universe: ordu, Calls: []CallD{
+			{[]int{0, 1}, []string{"app"}, nil}, {[]int{1, 0}, []string{"app"}, nil}, {[]int{0, 1}, []string{"app"}, nil},
+			{[]int{1, 0}, []string{"onlyA", "lib"}, nil}, {[]int{0, 1}, []string{"onlyA", "lib"}, one(0, 1)}, {[]int{1, 0}, []string{"app"}, one(1, 0)}}})
+	add(&History{Note: "index order, the other list first; three repositories in three orders (rotations and a swap), a provided name that ties with a real one",
+		Class: "corpus/envelope/index-order", Universe: ordu, Calls: []CallD{
+			{[]int{1, 0}, []string{"app"}, nil}, {[]int{0, 1}, []string{"app"}, nil},
+			{[]int{0, 1, 2}, []string{"tool", "app"}, nil}, {[]int{2, 0, 1}, []string{"tool", "app"}, nil}, {[]int{1, 2, 0}, []string{"tool", "app"}, nil},
+			{[]int{2, 1, 0}, []string{"tool"}, nil}, {[]int{0, 1, 2}, []string{"tool"}, nil}, {[]int{0, 2}, []string{"base"}, nil}, {[]int{2, 0}, []string{"base"}, nil}}})
+	add(&History{Note: "one cache key, nine worlds: every call gets a clone of ONE prototype and a copy of ONE disqualification entry (two architectures)",
+		Class: "corpus/envelope/one-key", Universe: selu, Calls: []CallD{
+			{[]int{0}, []string{"a"}, nil}, {[]int{0}, []string{"z"}, nil}, {[]int{0}, []string{"y", "a"}, nil}, {[]int{0}, []string{"x"}, nil},
+			{[]int{0}, []string{"pv", "virt>1"}, nil}, {[]int{0}, []string{"c"}, nil}, {[]int{0}, []string{"z", "x"}, nil}, {[]int{0}, []string{"b=1", "y"}, nil},
+			{[]int{0}, []string{"a"}, nil}}})
 	return hs
 }
